@@ -212,6 +212,14 @@ func (m *machine) create(n string, depth int) (*component_definition.Meta, error
 				}
 			case 3:
 				m.check()
+				// get-or-create straight on an already published name (no preceding cache lookup)
+				x := rapid.SampledFrom(allNames).Draw(m.t, "direct")
+				if m.st[x].published != nil {
+					if _, err := m.create(x, depth+1); err != nil {
+						m.fail("create on published %q returned error %v", x, err)
+					}
+					m.flags["direct-create-on-published"] = true
+				}
 			}
 		}
 		if rapid.IntRange(0, 4).Draw(m.t, "fail") == 0 {
@@ -288,6 +296,17 @@ func TestRegistryMachine(t *testing.T) {
 				if m.st[n].failedOnce && m.st[n].published == nil {
 					m.flags["lookup-after-failure"] = true
 				}
+			},
+			"createDirect": func(t *rapid.T) {
+				m.t = t
+				n := rapid.SampledFrom(allNames).Draw(t, "name")
+				if m.st[n].published == nil {
+					t.Skip("not published")
+				}
+				if _, err := m.create(n, 0); err != nil {
+					m.fail("create on published %q returned error %v", n, err)
+				}
+				m.flags["direct-create-on-published"] = true
 			},
 			"": func(t *rapid.T) { m.t = t; m.check() },
 		})
